@@ -9,7 +9,7 @@
    [nstep ... st i = None] for all i = nothing can move any more (maximal execution). *)
 From Coq Require Import List NArith ZArith Lia.
 From SF Require Import Base.Str Net.Model Net.Util Net.Proofs.
-From SF Require Gather.Model Net.Contracts.
+From SF Require Gather.Model Net.Contracts Net.MixedModel Net.MixedProofs Net.MixedInst Net.MixedInstProofs Net.MixedInstProofs2.
 Import ListNotations.
 Local Open Scope string_scope. Local Open Scope list_scope.
 
@@ -71,6 +71,74 @@ Theorem C04_contract_gather : forall depth arr s1 s2,
   forall more, Gather.Model.gather_run depth (arr ++ more) = Gather.Model.gather_run depth arr.
 Proof. exact Net.Contracts.gather_terminates. Qed.
 
+(* ---- networks mixing sequential steps and merge-style steps (asyncio.wait(FIRST_COMPLETED)) ----
+   A step is a *log machine* (Net/MixedModel.v): its outputs, termination and the ports it currently waits on are
+   functions of the list of arrivals it has consumed; one transition = step i takes the next unread token of an
+   input j it waits on.  An execution is ANY list of such choices.  For every well-formed network whose machines
+   honour the log contract (outputs only grow; one list per output; once terminated every output is data followed
+   by one termination token; a step that has not terminated waits on some input, never on one whose termination
+   token it has consumed), after ANY execution:
+     - either every step has terminated or some arrival can be taken (no deadlock);
+     - if nothing can move, every step has terminated and every output port carries its data followed by exactly
+       one termination token;
+     - every step has read, from each input, a prefix of that input's history that does not go beyond the first
+       termination token (so it consumes at most the tokens up to and including each port's termination token);
+     - the execution took exactly as many transitions as arrivals were consumed.
+   _partial: unlike C04_net_terminates this gives no schedule-independent bound n: merge-style steps do not
+   commute with themselves, so the diamond argument does not apply; finiteness is "each port is read at most up
+   to its termination token", the a-priori bound on the length of those histories is not proved. *)
+Theorem C04_mixed_net_partial :
+  forall (T spec : Type) (s_ins : spec -> list src) (s_nout : spec -> nat)
+         (outs : spec -> Net.MixedModel.log T -> list (list (Net.MixedModel.mtok T)))
+         (done : spec -> Net.MixedModel.log T -> bool) (accept : spec -> Net.MixedModel.log T -> nat -> bool)
+         (win : list (list (Net.MixedModel.mtok T))) (specs : list spec),
+    Net.MixedModel.log_contract T spec s_ins s_nout outs done accept ->
+    Net.MixedModel.mwf T spec s_ins s_nout win specs ->
+    forall ch st,
+      Net.MixedModel.mexec T spec s_ins outs done accept win specs (Net.MixedModel.minit T spec specs) ch = Some st ->
+      (Net.MixedModel.all_done T spec done specs st \/
+       exists c st', Net.MixedModel.mstep T spec s_ins outs done accept win specs st c = Some st') /\
+      ((forall c, Net.MixedModel.mstep T spec s_ins outs done accept win specs st c = None) ->
+         Net.MixedModel.all_done T spec done specs st /\
+         forall i sp l o, nth_error specs i = Some sp -> nth_error st i = Some l -> In o (outs sp l) ->
+           exists d s, o = d ++ [Net.MixedModel.E s] /\ Net.MixedModel.term_free_m T d) /\
+      (forall i sp l j p, nth_error specs i = Some sp -> nth_error st i = Some l -> nth_error (s_ins sp) j = Some p ->
+         Net.MixedModel.proj T j l =
+           firstn (Net.MixedModel.cnt T j l) (Net.MixedModel.mcontent T spec outs win specs st p) /\
+         existsb (Net.MixedModel.is_e T) (removelast (Net.MixedModel.proj T j l)) = false) /\
+      Net.MixedProofs.total T st = length ch.
+Proof. exact Net.MixedProofs.mixed_net. Qed.
+
+(* ScatterStep, the one-input element-wise Transformer and GatherStep (the latter THROUGH the Gather model of C01:
+   Net/MixedInst.v reads everything off Gather.Model.gather_run) honour the log contract: networks such as
+   scatter -> transform -> gather, nested or chained, are covered with no contract hypothesis left. *)
+Theorem C04_contract_scatter_xf_gather :
+  Net.MixedModel.log_contract Net.MixedInst.gtok Net.MixedInst.mspec Net.MixedInst.ms_ins Net.MixedInst.ms_nout
+    Net.MixedInst.ms_outs Net.MixedInst.ms_done Net.MixedInst.ms_accept.
+Proof. exact Net.MixedInstProofs.ms_contract. Qed.
+
+(* Failure propagation at the level of the NETWORK, any interleaving: in every reachable state of a network of
+   Scatter / one-input Transformer / Gather log machines, a terminated Transformer whose input history ends with a
+   FAILED termination token has an output history ending with a FAILED termination token (so FAILED travels down
+   every chain of transformers).
+   _partial: one-input transformers only (trivially shape-regular).  The statement for arbitrary shape-regular
+   graphs — multi-input Transformer/ConditionalStep reading all the termination tokens in the same round, GatherStep
+   reducing the statuses of its two ports — is NOT proved; the round-level fact it would rest on is
+   C04_failed_absorbing_round_partial. *)
+Theorem C04_failed_propagates_partial : forall win specs ch st i f p l d,
+  Net.MixedModel.mwf Net.MixedInst.gtok Net.MixedInst.mspec Net.MixedInst.ms_ins Net.MixedInst.ms_nout win specs ->
+  Net.MixedModel.mexec Net.MixedInst.gtok Net.MixedInst.mspec Net.MixedInst.ms_ins Net.MixedInst.ms_outs
+    Net.MixedInst.ms_done Net.MixedInst.ms_accept win specs
+    (Net.MixedModel.minit Net.MixedInst.gtok Net.MixedInst.mspec specs) ch = Some st ->
+  nth_error specs i = Some (Net.MixedInst.MXf f p) -> nth_error st i = Some l ->
+  Net.MixedInst.ms_done (Net.MixedInst.MXf f p) l = true ->
+  Net.MixedModel.mcontent Net.MixedInst.gtok Net.MixedInst.mspec Net.MixedInst.ms_outs win specs st p
+    = d ++ [Net.MixedModel.E FAILED] ->
+  Net.MixedModel.term_free_m Net.MixedInst.gtok d ->
+  exists d', Net.MixedModel.mcontent Net.MixedInst.gtok Net.MixedInst.mspec Net.MixedInst.ms_outs win specs st (SOut i 0)
+               = d' ++ [Net.MixedModel.E FAILED] /\ Net.MixedModel.term_free_m Net.MixedInst.gtok d'.
+Proof. exact Net.MixedInstProofs2.xf_failed_propagates. Qed.
+
 (* Statuses.  _reduce_statuses yields FAILED/CANCELLED exactly when one of them is among its arguments; a round
    that reads a FAILED termination token (and no CANCELLED one) ends the step FAILED whatever it has emitted;
    every status a step terminates with by itself is terminal.
@@ -111,6 +179,25 @@ Proof. exact x_prefix_leaves. Qed.
 Theorem C04_straggler_makes_run_raise_refuted : forall u, u <> 0 -> x_normal_path_raises u false = true.
 Proof. intros [|u] H; [congruence|reflexivity]. Qed.
 
+(* scatter -> transform -> gather as log machines, two interleavings (size token before / after the elements): the
+   gathered list is the original one; and the gather cannot move before anything was scattered *)
+Example C04_scatter_xf_gather_runs :
+  let win : list (list Net.MixedInst.gmtok) :=
+    [[Net.MixedModel.D (Gather.Model.ListTok "0" [Gather.Model.Tok "0" "a"; Gather.Model.Tok "0" "b"]);
+      Net.MixedModel.E COMPLETED]] in
+  let specs := [Net.MixedInst.MScatter (WIn 0); Net.MixedInst.MXf (fun x => x) (SOut 0 0);
+                Net.MixedInst.MGather 1 (SOut 0 1) (SOut 1 0)] in
+  let ex := Net.MixedModel.mexec Net.MixedInst.gtok Net.MixedInst.mspec Net.MixedInst.ms_ins Net.MixedInst.ms_outs
+              Net.MixedInst.ms_done Net.MixedInst.ms_accept win specs
+              (Net.MixedModel.minit Net.MixedInst.gtok Net.MixedInst.mspec specs) in
+  let out st := Net.MixedModel.mcontent Net.MixedInst.gtok Net.MixedInst.mspec Net.MixedInst.ms_outs win specs st (SOut 2 0) in
+  let expected := [Net.MixedModel.D (Gather.Model.ListTok "0" [Gather.Model.Tok "0.0" "a"; Gather.Model.Tok "0.1" "b"]);
+                   Net.MixedModel.E COMPLETED] in
+  option_map out (ex [(0,0);(0,0);(1,0);(2,1);(1,0);(2,0);(1,0);(2,1);(2,0);(2,1)]) = Some expected /\
+  option_map out (ex [(0,0);(1,0);(0,0);(2,0);(2,0);(1,0);(1,0);(2,1);(2,1);(2,1)]) = Some expected /\
+  ex [(2,0)] = None.
+Proof. vm_compute. repeat split; reflexivity. Qed.
+
 (* ---- non-vacuity and headline instances *)
 Definition ex_win : list (list tok) :=
   [[Tok "0.0" 1; Tok "0.10" 2; Term COMPLETED]; [Tok "0.10" 7; Tok "0.0" 4; Term COMPLETED]]%Z.
@@ -149,6 +236,9 @@ Print Assumptions C04_net_terminates.
 Print Assumptions C04_contract_transformer_conditional.
 Print Assumptions C04_tg_net_terminates.
 Print Assumptions C04_contract_gather.
+Print Assumptions C04_mixed_net_partial.
+Print Assumptions C04_contract_scatter_xf_gather.
+Print Assumptions C04_failed_propagates_partial.
 Print Assumptions C04_status_bad_iff.
 Print Assumptions C04_failed_absorbing_round_partial.
 Print Assumptions C04_terminal_status.
